@@ -2,6 +2,7 @@ package props
 
 import (
 	"fmt"
+	"go/ast"
 	"go/token"
 	"go/types"
 	"sort"
@@ -85,6 +86,25 @@ func c20proxy(c *core.Ctx, row proxyRow) bool {
 			la = call
 		}
 	})
+	// the leader lookup behind a small unexported helper of the package shared by
+	// the sibling methods (e.g. "not when noForward, else leaderAddr"): the
+	// interpreter steps into it, and the lookup is the call inside it
+	var laHelper *ssa.Function
+	if la == nil {
+		an.Instrs(fn, func(in ssa.Instruction) {
+			call, ok := in.(*ssa.Call)
+			if !ok || la != nil {
+				return
+			}
+			h := call.Common().StaticCallee()
+			if h == nil || h.Pkg != fn.Pkg || len(h.Blocks) == 0 || ast.IsExported(h.Name()) || len(h.Blocks) > 8 {
+				return
+			}
+			if inner := an.CallsTo(h, false, "proxy.Proxy.leaderAddr"); len(inner) == 1 {
+				la, laHelper = inner[0].(*ssa.Call), h
+			}
+		})
+	}
 	if local == nil || remote == nil || la == nil {
 		c.Bad("C20.a", "TABLE", "Proxy."+row.method+":template", c.P.Pos(fn.Pos()), "the method does not contain the local store call, the leader lookup and the cluster call of the forwarding template", nil)
 		return false
@@ -136,6 +156,7 @@ func c20proxy(c *core.Ctx, row proxyRow) bool {
 	}
 	spec := an.DecideSpec{
 		Fn:   fn,
+		Step: func(g *ssa.Function) bool { return laHelper != nil && g == laHelper },
 		Vars: []an.Var{an.Bool("notLeader"), an.Bool("noForward"), an.Bool("addrOK"), an.Bool("remoteOK")},
 		Conds: []an.CondMatcher{
 			an.BoolCond("notLeader", func(v ssa.Value) bool {
@@ -186,6 +207,9 @@ func c20proxy(c *core.Ctx, row proxyRow) bool {
 						okReq = true
 					}
 					if e, isE := a.(*ssa.Extract); isE && e.Tuple == ssa.Value(la) && e.Index == 0 {
+						okAddr = true
+					}
+					if e, isE := an.Unwrap(an.Rz(a)).(*ssa.Extract); isE && e.Tuple == ssa.Value(la) && e.Index == 0 {
 						okAddr = true
 					}
 					if creds != nil && a == ssa.Value(creds) {
